@@ -46,8 +46,27 @@ def tuple_size(name):
 
 # --------------------------------------------------------------- array params
 
+def _layout(A, lay):
+  """The same numbers under another legal memory layout."""
+  if lay == "F":
+    return np.asfortranarray(A)
+  if lay == "view":          # non-contiguous view into a larger buffer
+    big = np.zeros((2 * A.shape[0], 2 * A.shape[1]), dtype=A.dtype)
+    big[::2, ::2] = A
+    return big[::2, ::2]
+  return A
+
+
+def gen_layout(r, p=0.3):
+  return r.choice(["F", "F", "view"]) if r.random() < p else None
+
+
 def make_array(desc):
   """Array-valued hyper-parameters / fit extras from a descriptor."""
+  if desc.get("layout") and desc["kind"] in ("spd", "lin", "basis"):
+    d2 = dict(desc)
+    lay = d2.pop("layout")
+    return _layout(make_array(d2), lay)
   k = desc["kind"]
   rs = np_stream(desc.get("seed", 0), "arr", k)
   if k == "spd":
@@ -129,13 +148,21 @@ def _init_lin(r, d, n_components, n_classes, has_classes=True, arr_p=0.2):
   if has_classes and k <= n_classes - 1:
     opts.append("lda")
   if r.random() < arr_p:
-    return {"$arr": dict(kind="lin", seed=_seed(r), k=k, d=d)}
+    a = dict(kind="lin", seed=_seed(r), k=k, d=d)
+    lay = gen_layout(r)
+    if lay:
+      a["layout"] = lay
+    return {"$arr": a}
   return r.choice(opts)
 
 
 def _prior(r, d, arr_p=0.2, allow_cov=True):
   if r.random() < arr_p:
-    return {"$arr": dict(kind="spd", seed=_seed(r), d=d)}
+    a = dict(kind="spd", seed=_seed(r), d=d)
+    lay = gen_layout(r)
+    if lay:
+      a["layout"] = lay
+    return {"$arr": a}
   opts = ["identity", "random"] + (["covariance"] if allow_cov else [])
   return r.choice(opts)
 
@@ -225,6 +252,9 @@ def gen_params(name, r, meta, light=True):
       if r.random() < 0.35:
         nb = r.randint(max(2, d), 3 * d + 2)
         p["basis"] = {"$arr": dict(kind="basis", seed=_seed(r), nb=nb, d=d)}
+        lay = gen_layout(r)
+        if lay:
+          p["basis"]["$arr"]["layout"] = lay
       else:
         p["basis"] = "triplet_diffs"
         p["n_basis"] = r.choice([None, d, 2 * d, 3 * d + 1])
@@ -232,6 +262,9 @@ def gen_params(name, r, meta, light=True):
       if r.random() < 0.35:
         nb = r.randint(max(2, d), 3 * d + 2)
         p["basis"] = {"$arr": dict(kind="basis", seed=_seed(r), nb=nb, d=d)}
+        lay = gen_layout(r)
+        if lay:
+          p["basis"]["$arr"]["layout"] = lay
       else:
         p["basis"] = "lda"
         num_eig = min(c - 1, d)
